@@ -49,6 +49,15 @@ func (c *Ctx) Prog(cfg load.Config) *load.Program {
 	return p
 }
 
+// Progs returns the configurations loaded so far (sorted by name).
+func (c *Ctx) Progs() []*load.Program {
+	var out []*load.Program
+	for _, k := range SortedKeys(c.progs) {
+		out = append(out, c.progs[k])
+	}
+	return out
+}
+
 // Thorough reports whether the thorough tier was requested.
 func (c *Ctx) Thorough() bool { return c.Tier == "thorough" }
 
